@@ -291,6 +291,11 @@ class _Subst(ast.NodeTransformer):
     visit_FunctionDef = visit_ListComp = visit_GeneratorExp = visit_SetComp = visit_DictComp = visit_Lambda
 
 
+def _mutated_through(fn, t):
+    from .helpers import mutated_through
+    return mutated_through(fn, t)
+
+
 def inline_new_temps(tree, expected):
     """a local that the recorded naming does not know, assigned once (`t = E`, E free of mutating calls) and read exactly once, in the
     statement that follows, is an explaining variable: it is substituted back (in place).  Returns the names removed."""
@@ -319,7 +324,7 @@ def inline_new_temps(tree, expected):
                         if any(t in free_names(n) for n in own if isinstance(n, SCOPES)):
                             loads += 1
                         nxt = body[i + 1]
-                        if stores == 1 and loads == 1 and not isinstance(nxt, (ast.For, ast.While, ast.FunctionDef, ast.ClassDef, ast.With, ast.Try)):
+                        if stores == 1 and loads == 1 and not _mutated_through(fn, t) and not isinstance(nxt, (ast.For, ast.While, ast.FunctionDef, ast.ClassDef, ast.With, ast.Try)):
                             sub = _Subst(t, st.value)
                             if isinstance(nxt, ast.If):
                                 nxt.test = sub.visit(nxt.test)
